@@ -13,7 +13,7 @@ if os.path.exists(src+"/README.md"): shutil.copy(src+"/README.md", dst+"/README.
 def ign(d, names): return [n for n in names if n in ("api","go.sum")]
 if os.path.exists(src+"/demo"): shutil.copytree(src+"/demo", dst+"/demo", ignore=ign)
 json.dump({"property": pid, "change": what, "needs_to_manifest": needs,
-  "confirmed": "in the agent's scratch worktree: demo passes on the clean tree; patch applies, `go build ./...` succeeds, existing tests of the touched packages pass, demo fails; tree reverted",
+  "confirmed": "in the agent's scratch worktree: demo passes on the clean tree; patch applies, `go build ./...` succeeds, the full test suite passes except TestGenerate/Examples/k8s (emptied data file; fails at HEAD too), demo fails; tree reverted",
   "ran_against": f"tools/trymut.sh {check.split()[0]} seeded/{pid}-{letter}/patch.diff  (git -C /repo apply; ./check.sh; git -C /repo checkout -- .)",
   "detected_by": check, "result": note}, open(dst+"/meta.json","w"), indent=1)
 print("archived", dst)
